@@ -8,6 +8,8 @@ CONSTANTS
   Lifecycle = "inline"
   SecondCheck = TRUE
   Filter = TRUE
+  EndKinds = {"cancel", "deadline", "parent"}
+  Honoured = {"cancel", "deadline", "parent"}
   MaxFail = 0
   GiveBack = FALSE
 CONSTRAINT Hwm
